@@ -156,6 +156,14 @@ def decodeStore (d : Lean.Json) : Except String (Store × NodeId) := do
     | _ => throw "node"
     st := st.push n
   let root ← asNodeId ((d.getObjVal? "root").toOption.getD .null)
-  pure (st, root)
+  -- a single *Schema field pointing outside the node table is a nil pointer = an absent keyword
+  let sz := st.size
+  let fix (o : Option NodeId) : Option NodeId := o.bind fun i => if i < sz then some i else none
+  let st2 := st.map fun n => { n with
+    items := fix n.items, additionalItems := fix n.additionalItems, contains := fix n.contains,
+    unevaluatedItems := fix n.unevaluatedItems, additionalProperties := fix n.additionalProperties,
+    propertyNames := fix n.propertyNames, unevaluatedProperties := fix n.unevaluatedProperties, not := fix n.not,
+    if_ := fix n.if_, then_ := fix n.then_, else_ := fix n.else_, contentSchema := fix n.contentSchema }
+  pure (st2, root)
 
 end Driver
